@@ -170,7 +170,7 @@ Qed.
 
 Lemma inv_sqrt_sq n : cmul' (/ sqrt (2 ^ n), 0) (/ sqrt (2 ^ n), 0) = (/ (2 ^ n), 0).
 Proof.
-  apply c_eq; csimp; try ring. rewrite Rmult_0_l, Rminus_0_r, <- Rinv_mult_distr by apply sqrt_pow2_neq.
+  apply c_eq; csimp; try ring. rewrite Rmult_0_l, Rminus_0_r, <- Rinv_mult.
   rewrite sqrt_sqrt by (left; apply pow2_Rpos). reflexivity.
 Qed.
 Lemma cdivr_scal n (z : Cx) : cdivr RO z (sqrt (2 ^ n)) = cmul' (/ sqrt (2 ^ n), 0) z.
